@@ -579,6 +579,9 @@ theorem step_plain (m m' : Migration) (s : Stmt) (h : m.Plain K) (hp : s.plainOp
     refine Migration.plain_using m1 t ?_
     exact Migration.plain_edit m m1 _ _ _ h (fun t t' ht hs => Table.removeIndex_plain t t' name ht hn hs) h1
   | commentOn t c text => unfold step at hs; cases hs
+  | alterType t c typ => unfold step at hs; cases hs
+  | setDefault t c d => unfold step at hs; cases hs
+  | dropNotNull t c => unfold step at hs; cases hs
 
 theorem plainOpts_of_plain (s : Stmt) (h : s.plain = true) : s.plainOpts = true := by
   cases s <;> simp_all [Stmt.plain, Stmt.plainOpts]
